@@ -660,7 +660,10 @@ class PrefixFaultProp(SessionProp):
         @given(self.strategy(tier))
         def run(x):
             cfg, pre, hist, lv, pv = x
-            for k in range(len(hist) + 1):
+            ks = range(len(hist) + 1)
+            if len(hist) > 80:       # histories blown up by a macro: every cut in the first 40 steps, then a stride
+                ks = sorted(set(list(range(41)) + list(range(41, len(hist) + 1, max(1, (len(hist) - 40) // 40))) + [len(hist)]))
+            for k in ks:
                 ops = pre + hist[:k] + LOSS_VARIANTS[lv][1] + prop.post_variants[pv]
                 case = (cfg, ops)
                 res.add("prefix_cut", case, prop.check_case(case))
@@ -727,11 +730,21 @@ def o_setid_any(ad, a, b, c):
     return [("setid", 65528 + (a % 8))]
 
 
+def o_many_resumes(ad, a, b, c):
+    # a flaky link: the session is resumed again and again while the broker never acknowledges
+    n = 12 + a % 30          # (the 1100-fold version is a block of its own in C12: see C12.run_exhaustive)
+    ops = []
+    for j in range(n):
+        ops += [("lose", ad, j % 3), ("build", ad), ("connect", ad, 0, 0, 0), ("rx", ad, "CONNACK", 0, 1)]
+    return ops
+
+
 T_PERS = G.Table([
     (12, G.o_publish_q12), (3, G.o_publish_q0), (5, G.o_pubrec), (3, G.o_puback), (3, G.o_pubcomp), (3, G.o_ack_good),
     (3, G.o_fire), (2, G.o_window), (1, G.o_advance_small), (3, G.o_lose_reconnect_persist), (1, G.o_lose_reconnect_clean),
     (2, G.o_reconnect_noack), (2, G.o_lose), (2, G.o_connack_ok), (1, G.o_build), (1, G.o_subscribe),
     (3, G.o_resume_with_publish), (2, o_setid_any), (2, G.o_arm), (2, G.o_late_connack), (2, G.o_connack),
+    (1, o_many_resumes),
 ])
 POST_PERS = [
     [("build", 0), ("handlers", 0, 7), ("connect", 0, 0, 0, 0), ("rx", 0, "CONNACK", 0, 1), ("publish", 0, 1), ("settle", 0), ("idle", 300.0)],
@@ -768,7 +781,26 @@ class C12(PrefixFaultProp):
             "PUBLISHes, none for released ids; a clean CONNACK fails the carried-over ones with MQTTSessionCleared "
             "and nothing of them is written again; requests made on the new connection before its CONNACK are "
             "neither failed nor re-sent; all complete once everything is answered). Non-trivial = a persistent "
-            "loss with at least one unfinished QoS>0 publish.")
+            "loss with at least one unfinished QoS>0 publish. Plus four hand-built blocks: a session resumed "
+            "1100 times in a row (each kind of loss) while the broker acknowledges nothing, then answered.")
+
+    def exhaustive_specs(self, tier, seed):
+        return [("resumes", i) for i in range(4 if tier == "quick" else 8)]
+
+    def run_exhaustive(self, spec, res):
+        i = spec[1]
+        cfg = dict(profile=3 if i % 2 else 2, version=4 if i % 4 < 2 else 3, jitter=0.25)
+        ops = [("build", 0), ("handlers", 0, 7), ("window", 0, 1 + i % 3), ("connect", 0, 0, 0, 0), ("rx", 0, "CONNACK", 0, 0),
+               ("publish", 0, 1 + i % 2, i % 3, 0, 0, 0), ("publish", 0, 2 - i % 2), ("publish", 0, 0), ("publish", 0, 1)]
+        if i % 2:
+            ops.append(("rx", 0, "PUBREC", 0, 0, 0))
+        for j in range(1100 if i < 4 else 2200):
+            ops += [("lose", 0, j % 3), ("build", 0), ("connect", 0, 0, 0, 0), ("rx", 0, "CONNACK", 0, 1)]
+        ops += [("settle", 0), ("settle", 0), ("idle", 300.0)]
+        case = (cfg, ops)
+        res.add("exhaustive:resumed_1100_times", case, self.check_case(case))
+        res.exhaustive["resumes%d" % i] = 1
+        return res
 
 
 def o_setid(ad, a, b, c):
